@@ -358,7 +358,7 @@ func (r *TypeClassSummonContext) lookupTypeClassInstanceLocalDeclared(ctx Curren
 
 	ins = ins.Filter(func(tci metafp.TypeClassInstance) bool {
 
-		if tci.IsGivenAny() && ctx.recursiveGen && isRecursiveDerivable(req) {
+		if tci.IsGivenAny() && ctx.recursiveGen && isRecursiveDerivable(ctx.working, req) {
 			return false
 			//fmt.Printf("%s is recursive derivable\n", req.Type)
 		}
@@ -526,11 +526,13 @@ func isValueGeneratedType(t metafp.TypeInfo) bool {
 	return t.Method.Contains("Unapply") && t.Method.Contains("Builder")
 }
 
-func isRecursiveDerivable(req metafp.RequiredInstance) bool {
+func isRecursiveDerivable(working genfp.WorkingPackage, req metafp.RequiredInstance) bool {
 	if req.Type.IsNamed() {
 		namedType := req.Type.AsNamed().Get()
 		if namedType.Underlying.IsStruct() {
-			if namedType.Underlying.Fields().Exists(metafp.StructField.Public) || isValueGeneratedType(req.Type) {
+			// a struct of the working package can be taken apart whatever the visibility of its fields
+			sameWorking := namedType.Package != nil && namedType.Package.Path() == working.Path()
+			if namedType.Underlying.Fields().Exists(metafp.StructField.Public) || isValueGeneratedType(req.Type) || sameWorking {
 				return true
 			} else {
 				return false
@@ -576,7 +578,7 @@ func (r *TypeClassSummonContext) lookupTypeClassInstancePrimitivePkg(ctx Current
 	ins = ins.Filter(func(tci metafp.TypeClassInstance) bool {
 		//fmt.Printf("result for %s[%s] is %s, is given %t\n", req.TypeClass.Name, req.Type, tci.Name, tci.IsGivenAny())
 
-		if tci.IsGivenAny() && ctx.recursiveGen && isRecursiveDerivable(req) {
+		if tci.IsGivenAny() && ctx.recursiveGen && isRecursiveDerivable(ctx.working, req) {
 			return false
 			//fmt.Printf("%s is recursive derivable\n", req.Type)
 		}
